@@ -27,6 +27,78 @@ def run(chk, F):
         chk.guard("loop-progress", "parsers", lambda: k1.loop_progress(chk, F, res[1]))
     chk.guard("context-stays-usable", "helpers::eval", lambda: usable(chk, F))
     chk.guard("front-end-list-protocol", "cli fmt", lambda: list_protocol(chk, F))
+    chk.guard("no-unbounded-external-recursion", "workspace", lambda: external_recursion(chk, F))
+    chk.guard("display-power-bounded", "Number::prettify", lambda: display_power(chk, F))
+
+
+def external_recursion(chk, F):
+    """Who-may-call rule with a frozen table (tables/recursive_externals.json): library functions that are known, by reading
+    their source, to recurse to a depth that grows with the size of a *value* (not of the input text).  A stack overflow is not
+    a panic: nothing can catch it, the process (CLI, sandbox child, wasm instance) is gone.  No workspace function may call
+    one, directly or through a derive; resolved MIR callees are matched, so `#[derive(Hash)]` on a struct holding a Ratio counts."""
+    import json, os
+    table = json.load(open(os.path.join(os.path.dirname(os.path.abspath(__file__)), "..", "tables", "recursive_externals.json")))
+    G = cg.get(F)
+    roots = [f for f in (F.find("rink_core", "helpers::eval"), F.find("rink_core", "helpers::one_line")) if f]
+    reach = G.reachable(roots)
+    n_calls = 0
+    for e in table:
+        hits = []
+        for crate in sorted(F.by_crate):
+            for fn in F.by_crate[crate]:
+                for bb, t in fn.calls():
+                    if "callee" in t:
+                        n_calls += 1
+                        if t["callee"]["path"] == e["callee"]:
+                            hits.append((fn, bb))
+        for fn, bb in hits:
+            chk.finding("no-unbounded-external-recursion", "%s::%s" % (fn.crate, fn.path), "calls:" + e["callee"], fn.where(bb),
+                        "%s is called here; %s" % (e["callee"], e["why"]), path=G.path_to(reach, fn.id) if fn.id in reach else None)
+        if not hits:
+            chk.ok("no-unbounded-external-recursion", "workspace", "no-caller:" + e["callee"], "",
+                   "no workspace function calls %s (%d resolved call sites scanned); %s" % (e["callee"], n_calls, e["confirmed"]))
+    if n_calls < 5000:
+        raise AnchorLost("only %d resolved call sites were scanned; the workspace has more than 5000" % n_calls)
+
+
+def display_power(chk, F):
+    """Choosing an SI prefix raises every prefix to the power of the unit (three bignum pow calls per prefix).  That power is
+    the exponent of a *dimension*, so its size says nothing about the size of the result: `m^100000` is `1 meter^100000`, yet the
+    prefix search needs minutes for it.  Every Numeric::pow in prettify must sit behind a test that bounds the exponent by a
+    constant (K2 cut gate: with the in-range edges of those tests removed no pow call stays reachable)."""
+    fn = F.find("rink_core", "types::number::Number::prettify")
+    fk = "rink_core::types::number::Number::prettify"
+    acts = [bb for bb, t in fn.calls() if "callee" in t and t["callee"]["path"].endswith("Numeric::pow")
+            and "as_single" in ap_str(fn.apath(t["args"][1]))]
+    if len(acts) < 2:
+        raise AnchorLost("prettify: expected pow calls on the unit's exponent, found %d" % len(acts))
+
+    def bounded(kind, ap, info):
+        if kind != "bool":
+            return None
+        r = ap[0]
+        if r[0] != "binop" or r[1] not in ("Le", "Lt", "Ge", "Gt"):
+            return None
+        a, b = r[2], r[3]
+        def is_mag(x):
+            s_ = ap_str(x)
+            return "as_single" in s_ and ("unsigned_abs" in s_ or "::abs(" in s_ or "checked_abs" in s_ or "saturating_abs" in s_)
+        def const(x):
+            return x[0][1] if x[0][0] == "const" and isinstance(x[0][1], int) and not x[1] else None
+        LIMIT = 100000    # anything a dimension exponent could sensibly be; the point is that there is a bound
+        if is_mag(a) and const(b) is not None and r[1] in ("Le", "Lt") and const(b) <= LIMIT:
+            return {"true"}
+        if is_mag(b) and const(a) is not None and r[1] in ("Ge", "Gt") and const(a) <= LIMIT:
+            return {"true"}
+        if is_mag(a) and const(b) is not None and r[1] in ("Ge", "Gt") and const(b) <= LIMIT:
+            return {"false"}
+        if is_mag(b) and const(a) is not None and r[1] in ("Le", "Lt") and const(a) <= LIMIT:
+            return {"false"}
+        return None
+    k2.gate_rule(chk, fn, "display-power-bounded", fk, "prefix-search-only-for-small-powers", acts, bounded,
+                 "prefixes are raised to the unit's power only when its magnitude is below a constant bound",
+                 "prettify raises the SI prefixes to the unit's power without bounding it: `m^100000` (exact result `1 meter^100000`) "
+                 "does not answer within minutes, `units for s^100000` and error messages naming such a unit hang the same way")
 
 
 def usable(chk, F):
